@@ -1,20 +1,20 @@
 /-
   SpVerif.Model.History — a pool of `simple_parsing.ArgumentParser`s as a state machine.
 
-  What lives where in the code (anchors: /repo at c681aea):
+  What lives where in the code (anchors: /repo at 2abd945):
     * process-global spelling settings `G` = the three `FieldWrapper` class attributes
       (wrappers/field_wrapper.py:97-103), overwritten by EVERY constructor (parsing.py:149-151) and READ
       when option strings are generated (field_wrapper.py:599-604) — i.e. during `_preprocessing`, which
-      (since the D5 repair 7b430cf) first WRITES the parser's own settings to the class (parsing.py:553-558).
+      (since the D5 repair 7b430cf) first WRITES the parser's own settings to the class (parsing.py:556-561).
       The model threads `G` through `preprocess` exactly like that (write, then read what was written); the
       pre-repair variant (`Env.reassert = false`: read whatever is there) is kept so that `Props/C08` can show
       the statement is sensitive to those lines;
     * per parser: its own settings (`spec.cfg`, parsing.py:145-147), the registered dataclasses (`_wrappers`,
-      parsing.py:284), the `_preprocessing_done` latch (parsing.py:144,550-583), the argparse actions added so
-      far (`table`), the defaults pushed into the wrappers by `set_defaults` (parsing.py:408-461) and the ones
-      that fell through to argparse's parser-level `_defaults` (`stray`, parsing.py:461), whether `--config_path`
+      parsing.py:284), the `_preprocessing_done` latch (parsing.py:144,553-586), the argparse actions added so
+      far (`table`), the defaults pushed into the wrappers by `set_defaults` (parsing.py:408-464) and the ones
+      that fell through to argparse's parser-level `_defaults` (`stray`, parsing.py:464), whether `--config_path`
       was already added to the parser itself (parsing.py:348-358) and the subgroup choices resolved by the
-      first `_preprocessing` (parsing.py:559-561, 629-803).
+      first `_preprocessing` (parsing.py:562-564, 632-806).
 
   The call counters of the `parse_tuple` closures hanging off the actions (field_parsing.py:223-256) are NOT part
   of the state: since the D8 repair (b1a5942) the item type is chosen modulo the tuple length, a rejected value
@@ -72,7 +72,7 @@ structure Spec where
 abbrev FileC := List (Str × List (Str × Val))
 
 /-- content of a config file: `{dest: {field: value}}`, or — the layout `set_defaults` expects from a
-    WITHOUT_ROOT parser with a single dataclass (parsing.py:412-419) — `{field: value}` -/
+    WITHOUT_ROOT parser with a single dataclass (parsing.py:412-422) — `{field: value}` -/
 inductive FileJ
   | rooted (c : FileC)
   | rootless (kv : List (Str × Val))
@@ -128,7 +128,7 @@ structure PState where
 /-- the parser right after its constructor and its `add_arguments` calls -/
 def newP (spec : Spec) : PState := { spec := spec }
 
-/-! ### `_preprocessing` (parsing.py:546-583) -/
+/-! ### `_preprocessing` (parsing.py:549-586) -/
 
 def fieldDest (dest name : Str) : Str := dest ++ '.' :: name
 
@@ -149,7 +149,7 @@ def subAct (G : Cfg) (dest : Str) (s : SubSpec) : Act :=
     choices := some (s.alts.map (·.key)), required := false, default := some (.sc (.str s.default)) }
 
 /-- `--m` with a strict `--`-prefix of one of its spellings: the subgroup-choice parser is built with
-    `allow_abbrev=False` (parsing.py:675) while `Model/Engine` always abbreviates — outside the fragment -/
+    `allow_abbrev=False` (parsing.py:678) while `Model/Engine` always abbreviates — outside the fragment -/
 def abbrevRisk (acts : List Act) (argv : List Str) : Bool :=
   argv.any (fun t =>
     match t with
@@ -158,9 +158,9 @@ def abbrevRisk (acts : List Act) (argv : List Str) : Bool :=
       acts.any (fun a => a.opts.any (fun o => startsWith o pre && o != pre))
     | _ => false)
 
-/-- `_resolve_subgroups` (parsing.py:629-803) for flat alternatives: one round of
+/-- `_resolve_subgroups` (parsing.py:632-806) for flat alternatives: one round of
     `argparse.ArgumentParser(add_help=False, allow_abbrev=False).parse_known_args(args)` over the
-    subgroup flags of all registrations; no subgroup field ⇒ no parse at all (parsing.py:656-658) -/
+    subgroup flags of all registrations; no subgroup field ⇒ no parse at all (parsing.py:659-661) -/
 def chooseAll (env : Env) (G : Cfg) (regs : List Reg) (args : List Str) : Except Out (List FReg) :=
   let acts := regs.filterMap (fun r => r.cls.sub.map (subAct G r.dest))
   if acts.isEmpty then .ok (regs.map (fun r => { reg := r, key := none }))
@@ -178,7 +178,7 @@ def chooseAll (env : Env) (G : Cfg) (regs : List Reg) (args : List Str) : Except
             | _ => none }))
 
 /-- `DataclassWrapper.add_arguments` (dataclass_wrapper.py:183-214) for one registration and, right
-    after it, for the child wrapper of the chosen alternative (`_flatten_wrappers`, parsing.py:1148-1152) -/
+    after it, for the child wrapper of the chosen alternative (`_flatten_wrappers`, parsing.py:1151-1155) -/
 def customAct (custom : List (Str × BConv)) (f : FieldSpec) (a : Act) : Act :=
   match custom.lookup f.name with
   | some c => { a with conv := .base c }       -- `custom_arg_options.get("type", …)` (field_wrapper.py:398)
@@ -223,7 +223,7 @@ inductive PreOut
   | ok (p : PState)
   | stop (p : PState) (o : Out)
 
-/-- the body of `_preprocessing(args)` (parsing.py:546-583) while the FieldWrapper class attributes are `Gr`:
+/-- the body of `_preprocessing(args)` (parsing.py:549-586) while the FieldWrapper class attributes are `Gr`:
     early return once done; otherwise resolve the subgroups FROM THIS argv, add one action per field — every
     option string READS the class attributes — and latch -/
 def preprocessAt (env : Env) (Gr : Cfg) (p : PState) (args : List Str) : PreOut :=
@@ -239,14 +239,14 @@ def preprocessAt (env : Env) (Gr : Cfg) (p : PState) (args : List Str) : PreOut 
         .ok { p with preDone := true, table := tbl, frozen := fregs }
 
 /-- `_preprocessing(args)` with the class attributes threaded: after the early-return check the parser WRITES its
-    own settings to the class (parsing.py:553-558, the D5 repair), then everything below READS the class -/
+    own settings to the class (parsing.py:556-561, the D5 repair), then everything below READS the class -/
 def preprocess (env : Env) (G : Cfg) (p : PState) (args : List Str) : PreOut × Cfg :=
   if p.preDone then (.ok p, G)
   else
     let G1 := if env.reassert then p.spec.cfg else G
     (preprocessAt env G1 p args, G1)
 
-/-! ### `_postprocessing` (parsing.py:586-627, 805-1021) -/
+/-! ### `_postprocessing` (parsing.py:589-630, 808-1024) -/
 
 def instOf (defs : FileC) (ns : List (Str × Val)) (fr : FReg) : Except Out Inst :=
   let r := fr.reg
@@ -265,7 +265,7 @@ def instOf (defs : FileC) (ns : List (Str × Val)) (fr : FReg) : Except Out Inst
     | some _, none => .error (.unmodelled "unresolved subgroup")
 
 /-- a registration that came after `_preprocessing`: no action was ever added for its fields, so each field
-    receives `field.default` (parsing.py:1002 `parsed_arg_values.pop(field.dest, field.default)`) -/
+    receives `field.default` (parsing.py:1005 `parsed_arg_values.pop(field.dest, field.default)`) -/
 def lateInst (defs : FileC) (r : Reg) : Except Out Inst :=
   match r.cls.sub with
   | some _ => .error (.unmodelled "late registration with a subgroup field")
@@ -274,7 +274,7 @@ def lateInst (defs : FileC) (r : Reg) : Except Out Inst :=
     | .error e => .error (.raise e)
     | .ok fs => .ok { dest := r.dest, cls := r.cls.name, fields := fs, sub := none }
 
-/-- the subgroup flags' own parsed values, moved to `namespace.subgroups` (parsing.py:805-822) -/
+/-- the subgroup flags' own parsed values, moved to `namespace.subgroups` (parsing.py:808-825) -/
 def subgroupsOf (ns : List (Str × Val)) (frozen : List FReg) : List (Str × Val) :=
   frozen.filterMap (fun fr => fr.reg.cls.sub.bind (fun s =>
     (ns.lookup (fieldDest fr.reg.dest s.name)).map (fun v => (fieldDest fr.reg.dest s.name, v))))
@@ -319,42 +319,47 @@ def unionDefs (a b : FileC) : FileC :=
     if acc.any (fun p => p.1 = dk.1) then acc.map (fun p => if p.1 = dk.1 then (p.1, unionKV p.2 dk.2) else p)
     else acc ++ [dk]) a
 
-/-- what `set_defaults` knows when it reads a file: `self._wrappers` (destination ↦ field names) and whether the
-    file is taken as root-less (`self.nested_mode == WITHOUT_ROOT and len(self._wrappers) == 1`,
-    parsing.py:412 — the parser's OWN nested mode) -/
+/-- what `set_defaults` knows when it reads a file: `self._wrappers` (destination ↦ field names) and — when the
+    parser's OWN nested mode is WITHOUT_ROOT and exactly one wrapper is TOP-LEVEL (`parent is None`; since 2abd945 the
+    child wrappers that `_preprocessing` flattens into `_wrappers` no longer count, parsing.py:412-422) — that one
+    wrapper, under which a root-less file is filed -/
 structure LoadCtx where
   wrappers : List (Str × List Str)
-  rootless : Bool
+  root : Option (Str × List Str)
 
 def plainNames (c : ClassSpec) : List Str := c.fields.map (·.name)
 
 /-- `self._wrappers` at this moment: the registrations, or — once `_preprocessing` ran — the flattened list
     including one child wrapper per resolved subgroup (children have dotted dests, no file addresses them) -/
 def loadCtx (p : PState) : LoadCtx :=
-  let ws : List (Str × List Str) :=
-    if p.preDone then
-      p.frozen.flatMap (fun fr => (fr.reg.dest, plainNames fr.reg.cls) ::
-        (match fr.key with | some _ => [(fr.reg.dest ++ ['.'], [])] | none => [])) ++
+  let top : List (Str × List Str) :=
+    if p.preDone then (p.frozen.map (fun fr => (fr.reg.dest, plainNames fr.reg.cls))) ++
       p.late.map (fun r => (r.dest, plainNames r.cls))
     else p.spec.regs.map (fun r => (r.dest, plainNames r.cls))
-  { wrappers := ws, rootless := p.spec.cfg.nest = .withoutRoot && ws.length = 1 }
+  let children : List (Str × List Str) :=
+    if p.preDone then p.frozen.filterMap (fun fr => fr.key.map (fun _ => (fr.reg.dest ++ ['.'], [])))
+    else []
+  { wrappers := top ++ children,
+    root := match p.spec.cfg.nest, top with
+      | .withoutRoot, [w] => some w
+      | _, _ => none }
 
 inductive Interp
   | defs (c : FileC)                 -- pushed into the wrappers (`wrapper.set_default`)
-  | stray (kv : List (Str × Val))    -- no wrapper has such a dest: `super().set_defaults(**kwargs)` (parsing.py:461)
+  | stray (kv : List (Str × Val))    -- no wrapper has such a dest: `super().set_defaults(**kwargs)` (parsing.py:464)
   | foreign                          -- RuntimeError / nested dicts on the namespace …: outside the fragment
 
-/-- what one file does (parsing.py:410-461) -/
+/-- what one file does (parsing.py:410-464) -/
 def interpret (ctx : LoadCtx) : FileJ → Interp
   | .rooted c =>
-    if !ctx.rootless && c.all (fun dk => match ctx.wrappers.lookup dk.1 with
+    if ctx.root.isNone && c.all (fun dk => match ctx.wrappers.lookup dk.1 with
         | some names => dk.2.all (fun kv => names.contains kv.1)
         | none => false) then .defs c else .foreign
   | .rootless kv =>
-    match ctx.rootless, ctx.wrappers with
-    | true, [(d, names)] => if kv.all (fun x => names.contains x.1) then .defs [(d, kv)] else .foreign
-    | true, _ => .foreign
-    | false, ws =>
+    match ctx.root with
+    | some (d, names) => if kv.all (fun x => names.contains x.1) then .defs [(d, kv)] else .foreign
+    | none =>
+      let ws := ctx.wrappers
       -- the file is NOT taken as root-less: its top-level keys are looked up among the wrappers' dests, none
       -- matches, and they all become parser-level defaults, i.e. plain attributes of every later namespace
       if kv.all (fun x => !(ws.any (fun w => w.1 = x.1)) && !x.1.contains '.' && x.1 != cfgDest
@@ -499,7 +504,7 @@ def helpP (env : Env) (G : Cfg) (p : PState) : PState × Out × Cfg :=
 def addP (p : PState) (r : Reg) : PState × Out :=
   if p.spec.regs.any (fun q => q.dest = r.dest) then ({ p with broken := true }, .unmodelled "destination reused")
   else if !p.stray.isEmpty then
-    -- `_add_arguments` consults `self._defaults` (parsing.py:523-543): outside the fragment
+    -- `_add_arguments` consults `self._defaults` (parsing.py:526-546): outside the fragment
     ({ p with broken := true }, .unmodelled "registration while parser-level defaults exist")
   else
     let spec := { p.spec with regs := p.spec.regs ++ [r] }
